@@ -2179,7 +2179,8 @@ for _p, _names in {
     "C15": ["rule_py_decodes_are_strict", "rule_py_ndjson_writer_header"],
     "C04": ["rule_py_ndjson_writer_header"],
     "C01": ["rule_py_decodes_are_strict"],
-    "C16": ["rule_py_decodes_are_strict"],
+    "C16": ["rule_py_decodes_are_strict", "rule_py_available_bytes_come_from_the_stream"],
+    "C17": ["rule_py_available_bytes_come_from_the_stream"],
 }.items():
     RULES.setdefault(_p, []).extend(_r11(n) for n in _names)
 
